@@ -9,7 +9,7 @@ same run. The reported value must be <= peak, >= |r_1|, >= |r_T| and >= peak - |
 from fractions import Fraction
 import mpmath
 from .common import pyval, Infra
-from .c02 import (M31, BRUTE_MAX_T, brute, rate_at, peak_closed, firmware_valid, gen_random, gen_extreme, gen_vertex,
+from .c02 import (M31, BRUTE_MAX_T, brute, rate_at, peak_closed, firmware_valid, gen_random, gen_extreme, gen_vertex, gen_bound,
                   small_box, tdiv, load_first)
 
 GEN_FUNCTIONS = ['max_rate_t3', 'rate_t3']
@@ -22,7 +22,7 @@ TRUSTED = ['translator/pynum2lean.py (validated by this correspondence run)',
            'T3.Contract (round-to-nearest: exact on representable values, relative error 2^-53) as hypothesis on R; '
            'instance proved for Rounding.exact only',
            'math.ceil of a float = exact ceiling of its rational value']
-ASSUMPTIONS = ['integer arguments; 1 <= T <= 2^32; every per-tick |rate| <= 2^31-1 and |accel| <= 2^31 '
+ASSUMPTIONS = ['integer arguments; 1 <= T <= 2^32; every per-tick rate in the signed 32-bit range [-2^31, 2^31-1] and |accel| <= 2^31 '
                '(T3.ValidT3, spelled out by theorem C02_valid_iff)']
 STAGED = ['nothing staged: C17_peak_spec, C17_attained, C17_ends, C17_shortfall, C17_limit are proved about Gen.max_rate_t3 '
           'for every R with T3.Contract R (binary64 t_mid, float window test and math.ceil included, not only exact '
@@ -67,6 +67,8 @@ def gen_cases(ctx):
         cases.append(gen_random(rng))
     for _ in range(ctx.n(4000)):
         cases.append(gen_extreme(rng))
+    for _ in range(ctx.n(3000)):     # a rate exactly on a bound of the signed 32-bit range
+        cases.append(gen_bound(rng))
     for _ in range(ctx.n(1500)):
         T = rng.choice([1, 2, 3, rng.randint(1, 1000), rng.randint(1, 2 ** 20), rng.randint(1, 2 ** 32)])
         accel = rng.randint(-(2 * M31) // T - 1, (2 * M31) // T + 1)
